@@ -118,16 +118,28 @@ Record bytes_ok (ty : N) (E : store) (b : builder) : Prop := mkBytesOk {
 (* ---------- the invariant ---------- *)
 Definition lastkey (acc : kmap) : key := match acc with [] => [] | (k, _) :: _ => k end.
 
+(* the part of the invariant that `compile` reads and writes *)
+Definition minv (ty : N) (E : store) (b : builder) : Prop :=
+  store_ok E /\ bytes_ok ty E b /\ reg_ok E (b_reg b).
+
+(* the part about the unfinished stack: [k] the key spelled by the pending transitions,
+   [L] the language of the stack *)
+Record sinv (E : store) (st : list unf) (k : key) (L : kmap) : Prop := mkSinv {
+  s_shape : shape st k;
+  s_unf : Forall (unf_ok E) st;
+  s_W : W 0 st;
+  s_dom : forall a, In a (addrs E) -> dom st a;
+  s_lang : Lstk (elang E) st [] = L
+}.
+(* between two calls the top node has no transitions *)
+Definition top_empty (st : list unf) : Prop :=
+  forall u, last_opt st = Some u -> n_trans (u_node u) = [].
+
 (* [acc]: the accepted pairs, newest first.  [G]: global node budget; [rem]: key bytes still to come *)
 Record inv (ty G rem : N) (E : store) (acc : kmap) (b : builder) : Prop := mkInv {
-  i_store : store_ok E;
-  i_bytes : bytes_ok ty E b;
-  i_reg : reg_ok E (b_reg b);
-  i_shape : shape (b_stack b) (lastkey acc);
-  i_unf : Forall (unf_ok E) (b_stack b);
-  i_W : W 0 (b_stack b);
-  i_dom : forall a, In a (addrs E) -> dom (b_stack b) a;
-  i_lang : Lstk (elang E) (b_stack b) [] = rev acc;
+  i_m : minv ty E b;
+  i_s : sinv E (b_stack b) (lastkey acc) (rev acc);
+  i_top : top_empty (b_stack b);
   i_len : b_len b = len acc;
   i_budget : len E + len (b_stack b) + rem <= G;
   i_G : NODE_MAX * G + 100 < U64
